@@ -23,7 +23,7 @@ struct Setup {
 
 fn setups(env: &Env, sugg: bool) -> Result<Vec<Setup>, String> {
     let mut v = vec![];
-    for lay in [Lay::Probhat, Lay::Verif] {
+    for lay in [Lay::Probhat, Lay::Verif, Lay::Relative] {
         for numpad in [false, true] {
             let mut opts = 0;
             if numpad {
@@ -99,7 +99,7 @@ fn judge(s: &Setup, with_pre: usize, code: u16, m: u8, out: &mut Out, t: &mut Ta
     let expected = if with_pre > 3 {
         match crate::prop::c12::model(prefix, val.unwrap_or(""), false, false, false, false) {
             crate::prop::c12::Exp::Text(x, _) => x,
-            crate::prop::c12::Exp::Unspecified(_) => {
+            crate::prop::c12::Exp::OneOf(..) | crate::prop::c12::Exp::Unspecified(_) => {
                 let _ = r;
                 t.unspecified += 1;
                 return;
@@ -168,7 +168,7 @@ impl Prop for C04 {
         "C04"
     }
     fn rule(&self) -> String {
-        "complete enumeration: every u16 key code x modifier in {0,1,2,3,4,5,0x80,0xFE,0xFF} x numpad off/on x {Probhat.json, verif.json} \
+        "complete enumeration: every u16 key code x modifier in {0,1,2,3,4,5,0x80,0xFE,0xFF} x numpad off/on x {the bundled Probhat.json; verif.json (synthetic: multi-code-point, white-space-only and empty entries); a second file called Probhat.json with four keys exchanged, named by the relative path `Probhat.json` from its own directory while the data directory holds the bundled file of that name} \
          x {idle, after the consonant ক} (the 111 published codes also after the vowel অ, after '!', after a hasanta and after র, where the expectation is the rule model of C12 with all helpers off), suggestions off (pre-edit text compared with the layout JSON read independently), plus the 111 published \
          codes x 9 modifiers with suggestions on (first candidate), plus the number-pad option switched off/on/off/on by update_engine under a live context for every number-pad key. distinct_nontrivial = distinct (layout, key, plane, assigned text) tuples that \
          emitted text and were compared."
@@ -239,7 +239,7 @@ impl Prop for C04 {
         // the number-pad option switched on and off under a live context ("only while the option is on")
         let mut dynamic = 0u64;
         if env.shard == 0 {
-            for lay in [Lay::Probhat, Lay::Verif] {
+            for lay in [Lay::Probhat, Lay::Verif, Lay::Relative] {
                 let root = env.root("c04-dyn");
                 fresh_root(&root);
                 let (Ok(mut sess), Ok(oracle)) = (Sess::new(CfgSpec::new(lay, 0), &root), LayoutOracle::load(lay)) else { continue };
